@@ -934,6 +934,298 @@ def _generator_loops(tree):
     return count
 
 
+def _bulk_adds_to_loops(tree):
+    """G.add_nodes_from((K, D) for V in S if C)   ->   for V in S: if C: G.add_node(K, **D)
+    G.add_edges_from((A, B, D) for ...)           ->   for ...: G.add_edge(A, B, **D)       (D a dict literal: keywords)
+    for a comprehension / generator argument with one `for`: the bulk form adds the elements one by one in iteration order."""
+    count = [0]
+
+    def element_call(recv, method, elt):
+        single = {"add_nodes_from": "add_node", "add_edges_from": "add_edge"}[method]
+        func = ast.Attribute(value=copy.deepcopy(recv), attr=single, ctx=ast.Load())
+        args, keywords = [], []
+        parts = list(elt.elts) if isinstance(elt, ast.Tuple) else None
+        n_pos = 1 if method == "add_nodes_from" else 2
+        if parts is None:
+            if method == "add_nodes_from":
+                return None          # a bare node or a (node, dict) pair: not decidable from the expression
+            args = [ast.Starred(value=elt, ctx=ast.Load())]
+        elif len(parts) == n_pos:
+            args = parts
+        elif len(parts) == n_pos + 1:
+            args = parts[:n_pos]
+            d = parts[n_pos]
+            if isinstance(d, ast.Dict) and all(isinstance(k, ast.Constant) and isinstance(k.value, str) and k.value.isidentifier() for k in d.keys):
+                keywords = [ast.keyword(arg=k.value, value=v) for k, v in zip(d.keys, d.values)]
+            else:
+                keywords = [ast.keyword(arg=None, value=d)]
+        else:
+            return None
+        return ast.Expr(value=ast.Call(func=func, args=args, keywords=keywords))
+
+    def rewrite(stmts):
+        out = []
+        for st in stmts:
+            for fld in ("body", "orelse", "finalbody"):
+                b = getattr(st, fld, None)
+                if isinstance(b, list) and b and isinstance(b[0], ast.stmt):
+                    setattr(st, fld, rewrite(b))
+            if isinstance(st, ast.Try):
+                for h in st.handlers:
+                    h.body = rewrite(h.body)
+            v = st.value if isinstance(st, ast.Expr) else None
+            # D.update((K, V) for T in S if C) / D.update({K: V for T in S if C})   ->   for T in S: if C: D[K] = V
+            if isinstance(v, ast.Call) and isinstance(v.func, ast.Attribute) and v.func.attr == "update" and len(v.args) == 1 and not v.keywords and \
+                    isinstance(v.func.value, ast.Name) and isinstance(v.args[0], (ast.GeneratorExp, ast.ListComp, ast.DictComp)) and \
+                    len(v.args[0].generators) == 1 and not v.args[0].generators[0].is_async:
+                comp = v.args[0]
+                g = comp.generators[0]
+                kv = None
+                if isinstance(comp, ast.DictComp):
+                    kv = (comp.key, comp.value)
+                elif isinstance(comp.elt, ast.Tuple) and len(comp.elt.elts) == 2:
+                    kv = (comp.elt.elts[0], comp.elt.elts[1])
+                if kv is not None:
+                    store = ast.Assign(targets=[ast.Subscript(value=ast.Name(id=v.func.value.id, ctx=ast.Load()), slice=kv[0], ctx=ast.Store())], value=kv[1])
+                    body = [ast.copy_location(store, st)]
+                    for cond in reversed(g.ifs):
+                        body = [ast.copy_location(ast.If(test=cond, body=body, orelse=[]), st)]
+                    loop = ast.copy_location(ast.For(target=g.target, iter=g.iter, body=body, orelse=[]), st)
+                    ast.fix_missing_locations(loop)
+                    out.append(loop)
+                    count[0] += 1
+                    continue
+            if isinstance(v, ast.Call) and isinstance(v.func, ast.Attribute) and v.func.attr in ("add_nodes_from", "add_edges_from") and len(v.args) == 1 and \
+                    not v.keywords and isinstance(v.args[0], (ast.GeneratorExp, ast.ListComp)) and len(v.args[0].generators) == 1 and \
+                    not v.args[0].generators[0].is_async and isinstance(v.func.value, (ast.Name, ast.Attribute)):
+                comp = v.args[0]
+                g = comp.generators[0]
+                call = element_call(v.func.value, v.func.attr, comp.elt)
+                if call is not None:
+                    body = [ast.copy_location(call, st)]
+                    for cond in reversed(g.ifs):
+                        body = [ast.copy_location(ast.If(test=cond, body=body, orelse=[]), st)]
+                    loop = ast.copy_location(ast.For(target=g.target, iter=g.iter, body=body, orelse=[]), st)
+                    ast.fix_missing_locations(loop)
+                    out.append(loop)
+                    count[0] += 1
+                    continue
+            out.append(st)
+        return out
+    for fn in ast.walk(tree):
+        if isinstance(fn, ast.FunctionDef):
+            fn.body = rewrite(fn.body)
+    return count[0]
+
+
+_NX_ATTRS = {"nodes", "edges", "graph", "adj", "degree", "name", "neighbors", "items", "keys", "values", "index", "count"}
+
+
+def _namedtuples_to_tuples(tree):
+    """A small record type (typing.NamedTuple class without methods, collections.namedtuple) is read as the plain tuple it
+    is: X(a, b) -> (a, b); rec.field -> rec[i]; rec._replace(field=v) -> (rec[0], ..., v, ...).  The rules were written
+    against tuples and positional access; naming the positions does not change what is stored."""
+    classes = {}
+    for st in tree.body:
+        if isinstance(st, ast.ClassDef) and any((isinstance(b, ast.Name) and b.id == "NamedTuple") or (isinstance(b, ast.Attribute) and b.attr == "NamedTuple")
+                                                for b in st.bases):
+            fields, defaults, plain = [], {}, True
+            for x in st.body:
+                if isinstance(x, ast.AnnAssign) and isinstance(x.target, ast.Name):
+                    fields.append(x.target.id)
+                    if x.value is not None:
+                        defaults[x.target.id] = x.value
+                elif isinstance(x, ast.Expr) and isinstance(x.value, ast.Constant):
+                    continue
+                elif isinstance(x, ast.Pass):
+                    continue
+                else:
+                    plain = False
+            if plain and fields:
+                classes[st.name] = (fields, defaults)
+        elif isinstance(st, ast.Assign) and len(st.targets) == 1 and isinstance(st.targets[0], ast.Name) and isinstance(st.value, ast.Call) and \
+                ((isinstance(st.value.func, ast.Name) and st.value.func.id == "namedtuple") or
+                 (isinstance(st.value.func, ast.Attribute) and st.value.func.attr == "namedtuple")) and len(st.value.args) >= 2 and not st.value.keywords:
+            spec = st.value.args[1]
+            fields = None
+            if isinstance(spec, ast.Constant) and isinstance(spec.value, str):
+                fields = spec.value.replace(",", " ").split()
+            elif isinstance(spec, (ast.List, ast.Tuple)) and all(isinstance(e, ast.Constant) and isinstance(e.value, str) for e in spec.elts):
+                fields = [e.value for e in spec.elts]
+            if fields:
+                classes[st.targets[0].id] = (fields, {})
+    if not classes:
+        return 0
+    # a class whose instances are used as more than a tuple is left alone
+    for node in ast.walk(tree):
+        if isinstance(node, ast.Attribute) and node.attr in ("_asdict", "_fields", "_make", "_field_defaults"):
+            return 0
+    index_of = {}
+    ambiguous = set()
+    for cname, (fields, _d) in classes.items():
+        for i, f in enumerate(fields):
+            if f in index_of and index_of[f] != i:
+                ambiguous.add(f)
+            index_of.setdefault(f, i)
+    count = [0]
+
+    def build(cname, call):
+        fields, defaults = classes[cname]
+        if any(isinstance(a, ast.Starred) for a in call.args) or any(k.arg is None for k in call.keywords) or len(call.args) > len(fields):
+            return None
+        given = dict(zip(fields, call.args))
+        for k in call.keywords:
+            if k.arg not in fields or k.arg in given:
+                return None
+            given[k.arg] = k.value
+        elts = []
+        for f in fields:
+            if f in given:
+                elts.append(given[f])
+            elif f in defaults:
+                elts.append(copy.deepcopy(defaults[f]))
+            else:
+                return None
+        return ast.Tuple(elts=elts, ctx=ast.Load())
+
+    for fn in [n for n in ast.walk(tree) if isinstance(n, ast.FunctionDef)]:
+        # local names that certainly hold a record: bound from a constructor call, or ranging over a literal of such calls
+        holders = set()
+        for n in _walk_own(fn):
+            if isinstance(n, ast.Assign) and len(n.targets) == 1 and isinstance(n.targets[0], ast.Name) and isinstance(n.value, ast.Call) and \
+                    isinstance(n.value.func, ast.Name) and n.value.func.id in classes:
+                holders.add(n.targets[0].id)
+            if isinstance(n, (ast.For, ast.comprehension)) and isinstance(n.target, ast.Name):
+                it = n.iter
+                if isinstance(it, (ast.Tuple, ast.List)) and it.elts and all(isinstance(e, ast.Call) and isinstance(e.func, ast.Name) and e.func.id in classes for e in it.elts):
+                    holders.add(n.target.id)
+
+        class T(ast.NodeTransformer):
+            def visit_Call(self, node):
+                self.generic_visit(node)
+                if isinstance(node.func, ast.Name) and node.func.id in classes:
+                    t = build(node.func.id, node)
+                    if t is not None:
+                        count[0] += 1
+                        return ast.copy_location(t, node)
+                if isinstance(node.func, ast.Attribute) and node.func.attr == "_replace" and not node.args and node.keywords and \
+                        all(k.arg in index_of and k.arg not in ambiguous for k in node.keywords):
+                    # the record's length: the class that has all the named fields
+                    cands = [c for c, (fs, _d) in classes.items() if all(k.arg in fs for k in node.keywords)]
+                    if len({len(classes[c][0]) for c in cands}) == 1:
+                        n_f = len(classes[cands[0]][0])
+                        repl = {index_of[k.arg]: k.value for k in node.keywords}
+                        elts = [repl[i] if i in repl else ast.Subscript(value=copy.deepcopy(node.func.value), slice=ast.Constant(value=i), ctx=ast.Load())
+                                for i in range(n_f)]
+                        count[0] += 1
+                        return ast.copy_location(ast.Tuple(elts=elts, ctx=ast.Load()), node)
+                return node
+
+            def visit_Attribute(self, node):
+                self.generic_visit(node)
+                if isinstance(node.ctx, ast.Load) and node.attr in index_of and node.attr not in ambiguous:
+                    base = node.value
+                    certain = isinstance(base, ast.Name) and base.id in holders
+                    plausible = node.attr not in _NX_ATTRS and not (isinstance(base, ast.Name) and base.id in ("self", "cls"))
+                    if certain or plausible:
+                        count[0] += 1
+                        return ast.copy_location(ast.Subscript(value=base, slice=ast.Constant(value=index_of[node.attr]), ctx=ast.Load()), node)
+                return node
+        T().visit(fn)
+    if count[0]:
+        ast.fix_missing_locations(tree)
+    return count[0]
+
+
+def _unroll_small_loops(tree):
+    """for x in (a, b): BODY   ->   BODY[x := a]; BODY[x := b]
+    for a loop over a literal tuple / list of at most three simple expressions (also through a local bound once to such a
+    literal) with a short body without break / continue / else: "do the same for both ends" written as a loop."""
+    count = [0]
+
+    def simple(e):
+        if isinstance(e, (ast.Name, ast.Constant)):
+            return True
+        if isinstance(e, ast.Attribute):
+            return simple(e.value)
+        if isinstance(e, ast.Subscript):
+            return simple(e.value) and simple(e.slice)
+        if isinstance(e, ast.Tuple):
+            return all(simple(x) for x in e.elts)
+        return False
+
+    def in_comprehension_scope(fn):
+        """ids of the Name nodes that belong to a comprehension's own scope (its targets and the reads of those targets)"""
+        out = set()
+        for c in ast.walk(fn):
+            if isinstance(c, (ast.ListComp, ast.SetComp, ast.DictComp, ast.GeneratorExp)):
+                bound = {x.id for g in c.generators for x in ast.walk(g.target) if isinstance(x, ast.Name)}
+                for x in ast.walk(c):
+                    if isinstance(x, ast.Name) and x.id in bound:
+                        out.add(id(x))
+        return out
+
+    for fn in [n for n in ast.walk(tree) if isinstance(n, ast.FunctionDef)]:
+        comp_names = in_comprehension_scope(fn)
+        own = [n for n in _walk_own(fn) if id(n) not in comp_names]
+        stores = {}
+        for n in own:
+            if isinstance(n, ast.Name) and isinstance(n.ctx, (ast.Store, ast.Del)):
+                stores.setdefault(n.id, []).append(n)
+        literals = {}
+        for n in own:
+            if isinstance(n, ast.Assign) and len(n.targets) == 1 and isinstance(n.targets[0], ast.Name) and isinstance(n.value, (ast.Tuple, ast.List)) and \
+                    len(stores.get(n.targets[0].id, [])) == 1:
+                name = n.targets[0].id
+                mutated = any(isinstance(x, ast.Attribute) and isinstance(x.value, ast.Name) and x.value.id == name and
+                              x.attr in ("append", "extend", "insert", "pop", "remove", "sort", "reverse", "clear") for x in own)
+                if not mutated:
+                    literals[name] = n.value
+
+        def rewrite(stmts):
+            out = []
+            for st in stmts:
+                for fld in ("body", "orelse", "finalbody"):
+                    b = getattr(st, fld, None)
+                    if isinstance(b, list) and b and isinstance(b[0], ast.stmt):
+                        setattr(st, fld, rewrite(b))
+                if isinstance(st, ast.Try):
+                    for h in st.handlers:
+                        h.body = rewrite(h.body)
+                if isinstance(st, ast.For) and not st.orelse and isinstance(st.target, ast.Name):
+                    it = st.iter
+                    if isinstance(it, ast.Name) and it.id in literals:
+                        it = literals[it.id]
+                    tname = st.target.id
+                    body_nodes = [x for b_ in st.body for x in ast.walk(b_)]
+                    for x in body_nodes:
+                        if isinstance(x, ast.Name) and id(x) in comp_names:
+                            x._comp_bound = True
+                    used_after = False   # conservative: the loop variable must not be read outside the loop
+                    reads_elsewhere = [x for x in own if isinstance(x, ast.Name) and x.id == tname and isinstance(x.ctx, ast.Load) and not any(x is y for y in body_nodes)]
+                    if isinstance(it, (ast.Tuple, ast.List)) and 1 <= len(it.elts) <= 3 and all(simple(e) for e in it.elts) and len(st.body) <= 6 and \
+                            not any(isinstance(x, (ast.Break, ast.Continue, ast.FunctionDef, ast.Lambda, ast.Return, ast.Yield)) for x in body_nodes) and \
+                            not any(isinstance(x, ast.Name) and x.id == tname and isinstance(x.ctx, (ast.Store, ast.Del)) for x in body_nodes) and \
+                            len(stores.get(tname, [])) == 1 and not reads_elsewhere:
+                        # names assigned inside the body would be assigned twice: fine (sequential), they are ordinary locals
+                        for e in it.elts:
+                            class S(ast.NodeTransformer):
+                                def visit_Name(self, n, e=e):
+                                    if n.id == tname and isinstance(n.ctx, ast.Load) and not getattr(n, "_comp_bound", False):
+                                        return ast.copy_location(copy.deepcopy(e), n)
+                                    return n
+                            for b_ in st.body:
+                                out.append(ast.fix_missing_locations(S().visit(copy.deepcopy(b_))))
+                        count[0] += 1
+                        continue
+                out.append(st)
+            return out
+        fn.body = rewrite(fn.body)
+    if count[0]:
+        ast.fix_missing_locations(tree)
+    return count[0]
+
+
 def _walk_own(fn):
     """nodes of fn's own scope (nested function bodies excluded)"""
     stack = list(ast.iter_child_nodes(fn))
@@ -946,8 +1238,11 @@ def _walk_own(fn):
 
 
 def inline_module(tree, modname):
+    n_rec = _namedtuples_to_tuples(tree)
+    n_unroll = _unroll_small_loops(tree)
     n_alias = _unalias_lookups(tree)
     n_gen = _generator_loops(tree)
+    n_bulk = _bulk_adds_to_loops(tree)
     n_acc = _list_acc_to_str(tree)
     jt = _JoinToLoop()
     tree = jt.run(tree)
@@ -961,6 +1256,12 @@ def inline_module(tree, modname):
         inl.report.append("%d list accumulators joined with the empty string read as string accumulators" % n_acc)
     if n_alias:
         inl.report.append("%d hoisted attribute look-ups read in place" % n_alias)
+    if n_unroll:
+        inl.report.append("%d loops over a short literal sequence read as the repeated statements" % n_unroll)
+    if n_rec:
+        inl.report.append("%d uses of small record types (NamedTuple) read as plain tuples" % n_rec)
     if n_gen:
         inl.report.append("%d loops over a generator expression read as filtered loops" % n_gen)
+    if n_bulk:
+        inl.report.append("%d bulk add_nodes_from / add_edges_from calls read as loops" % n_bulk)
     return tree, inl.report
